@@ -697,6 +697,36 @@ func jsonParse(b []byte) any {
 }
 
 // shrinkJSON greedily simplifies a JSON document while ok() keeps holding.
+// shrinkSkip: parts of a configuration that are expectations computed by the generator (what an input spells, the
+// plan a config file must produce, expected tick sizes) or that must stay consistent with them; shrinking those
+// would turn a real violation into a mismatch between a configuration and its own expectation.
+func shrinkSkip(root any, p jsonPath) bool {
+	fileMode := false
+	if m, ok := root.(map[string]any); ok {
+		if y, ok := m["file_yaml"].(string); ok && y != "" {
+			fileMode = true
+		}
+		if _, ok := m["input"].(map[string]any); ok {
+			fileMode = true
+		}
+	}
+	for i, k := range p {
+		ks, _ := k.(string)
+		switch ks {
+		case "input", "file", "tick", "tick_rate", "trig_dur", "read_env", "static_labels":
+			return true
+		}
+		if i == 0 && fileMode {
+			switch ks {
+			case "prog", "cancel_at", "cancel_step", "wait_timeout", "runs":
+			default:
+				return true
+			}
+		}
+	}
+	return false
+}
+
 func shrinkJSON(raw json.RawMessage, ok func(json.RawMessage) bool, deadline time.Time) json.RawMessage {
 	cur := jsonParse(raw)
 	if cur == nil {
@@ -718,7 +748,7 @@ func shrinkJSON(raw json.RawMessage, ok func(json.RawMessage) bool, deadline tim
 		// arrays: drop halves, then single elements (at least one element stays)
 		var arrays []jsonPath
 		jsonWalk(cur, nil, func(p jsonPath, v any) {
-			if a, isArr := v.([]any); isArr && len(a) > 1 {
+			if a, isArr := v.([]any); isArr && len(a) > 1 && !shrinkSkip(cur, p) {
 				arrays = append(arrays, p)
 			}
 		})
@@ -760,7 +790,9 @@ func shrinkJSON(raw json.RawMessage, ok func(json.RawMessage) bool, deadline tim
 		jsonWalk(cur, nil, func(p jsonPath, v any) {
 			switch v.(type) {
 			case json.Number, bool:
-				leaves = append(leaves, p)
+				if !shrinkSkip(cur, p) {
+					leaves = append(leaves, p)
+				}
 			}
 		})
 		for _, p := range leaves {
